@@ -150,6 +150,19 @@ CHECKS = {
     ),
 }
 
+# additions of later rounds (appended to the coverage text)
+ADDED = {
+    "C01": " A cell-size chop variant is written, the assembled mesh stretched x2 and written again; the second write is judged by the same model with the new count.",
+    "C02": " Plus assemblies with a curved shared edge declared by one block only and a chop by cell size along it (count from the mean edge length), all insertion orders and numberings.",
+    "C04": " Plus write - stretch - write histories compared with a fresh mesh (also with the first and last block of a row of three chopped), arcs declared by one block only, uniform multi-section chops.",
+    "C06": " Plus a geometry name declared twice (the later declaration counts) and sphere shapes moved between two writes (built-in geometry compared with the shape moved before its first write).",
+    "C07": " Plus every sequence of <= 2 (thorough 3, thinned) project_edge / project_side(edges=True) calls out of 32 with two labels: each edge is written once as 'project' with exactly the union of its labels.",
+    "C09": " copy(): the copy moved after copying, and the original moved after copying (copy evaluated before or not), each compared with the geometry before.",
+    "C15": " Maps also at model sizes 1e-4 and 1e3.",
+    "C17": " Surface and curve clamps also in models 1e-3 and 1e3 times the unit size with inexact starting guesses.",
+    "C19": " Extruded and lofted (mid sketch) shapes on every sketch: operation [i][j] stands on face [i][j] of the sketch and ends above it.",
+}
+
 NOT_APPLICABLE = {}
 
 
@@ -161,6 +174,7 @@ def main():
         if pid not in CHECKS:
             continue
         cat, tech, text, note, ref = CHECKS[pid]
+        text += ADDED.get(pid, "")
         checks.append(
             {
                 "property_id": pid,
